@@ -11,7 +11,7 @@
 (* MC_Layout checks part 2 against part 1 on all small inputs; TraceLayout *)
 (* checks recorded runs against part 1.                                    *)
 (***************************************************************************)
-EXTENDS Integers, Sequences, FiniteSets
+EXTENDS Integers, Sequences, FiniteSets, FiniteSetsExt
 
 \* bank: [unit, addr, size (bits, -1 unbounded), outp (bits, -1 none), fill, labelalign]
 \* item: [kind ("w" written | "r" reserved | "l" label), bank, pos, size, bits (for "w")]
@@ -61,7 +61,6 @@ LayoutOK(banks, items) ==
     BanksDisjoint(banks) /\ ItemsOK(banks, items) /\ NoOverlap(banks, items)
 
 \* ---- the produced output --------------------------------------------------
-Max(S) == CHOOSE x \in S : \A y \in S : y <= x
 
 \* exact length: the last written bit, or the end of a filled bank beyond it
 ExpectedLen(banks, items) ==
